@@ -40,6 +40,8 @@ func main() {
 		os.Exit(cmdReplay(args))
 	case "world":
 		os.Exit(cmdWorld(args))
+	case "digest":
+		os.Exit(cmdDigest(args))
 	case "selftest-determinism":
 		os.Exit(cmdDeterminism(args))
 	default:
@@ -90,7 +92,64 @@ func cmdCheck(args []string) int {
 	}
 	seed := envSeed()
 	fmt.Printf("ibcsim check %s tier=%s VERIF_SEED=%d workers=%d\n", *prop, *tier, seed, n)
-	return sim.RunCheck(ck, sim.RunOptions{Tier: *tier, Seed: seed, Workers: n, VerifDir: *verif, SelfExe: exe, MaxWorlds: *worlds})
+	opts := sim.RunOptions{Tier: *tier, Seed: seed, Workers: n, VerifDir: *verif, SelfExe: exe, MaxWorlds: *worlds}
+	if ck.Custom != nil {
+		return ck.Custom(opts)
+	}
+	return sim.RunCheck(ck, opts)
+}
+
+// cmdDigest runs one world and writes its state-history digest (C45).
+func cmdDigest(args []string) int {
+	fs := flag.NewFlagSet("digest", flag.ExitOnError)
+	prop := fs.String("prop", "", "check whose worlds are used as histories")
+	tier := fs.String("tier", "quick", "")
+	seed := fs.Int64("seed", 1, "")
+	idx := fs.Int("i", 0, "")
+	from := fs.String("from", "", "re-execute the operation list of this digest file")
+	out := fs.String("out", "", "output file")
+	verif := fs.String("verif", "/verif", "")
+	fs.Parse(args)
+	known := sim.LoadKnownFindings(filepath.Join(*verif, "known_findings.json"))
+	var df *sim.DigestFile
+	if *from != "" {
+		bz, err := os.ReadFile(*from)
+		if err != nil {
+			fmt.Fprintln(os.Stderr, err)
+			return sim.ExitHarness
+		}
+		var in sim.DigestFile
+		if err := json.Unmarshal(bz, &in); err != nil {
+			fmt.Fprintln(os.Stderr, err)
+			return sim.ExitHarness
+		}
+		ck := prof.Lookup(in.Check)
+		if ck == nil {
+			return sim.ExitHarness
+		}
+		df = sim.RunDigest(ck, in.Cfg, in.Ops, known)
+	} else {
+		ck := prof.Lookup(*prop)
+		if ck == nil {
+			fmt.Fprintf(os.Stderr, "unknown check %q\n", *prop)
+			return sim.ExitHarness
+		}
+		ws := sim.WorldSeed(*seed, "C45/"+ck.Prop, *idx)
+		cfg := ck.MakeConfig(*tier, ws)
+		cfg.Seed = ws
+		cfg.Armed = []string{"C45"}
+		df = sim.RunDigest(ck, cfg, nil, known)
+	}
+	bz, _ := json.MarshalIndent(df, "", " ")
+	if *out == "" {
+		os.Stdout.Write(bz)
+		return 0
+	}
+	if err := os.WriteFile(*out, bz, 0o644); err != nil {
+		fmt.Fprintln(os.Stderr, err)
+		return sim.ExitHarness
+	}
+	return 0
 }
 
 func cmdWorker(args []string) int {
